@@ -16,7 +16,7 @@ func init() {
 	register(&Prop{
 		ID:    "C19",
 		Level: "exploration",
-		Rule: "generated streams (clean, and with continuity gaps) x predicates {PID set, continuity counter, PUSI, adaptation flags (RAI, PCR, discontinuity), per-packet coin flips, skip-all, skip-none} x " +
+		Rule: "generated streams (clean, with continuity gaps, with adaptation-only packets interleaved) x predicates {PID set, continuity counter, PUSI, adaptation flags (RAI, PCR, discontinuity), per-packet coin flips, skip-all, skip-none} x " +
 			"{NextPacket, NextData}: output with the skipper compared with the output on the stream with those packets deleted; every skipper invocation logged (count, order, header/AF vs reference decoding); " +
 			"parsers {observer, replacer returning 0..3 synthetic data, failing on the n-th unit}: groups logged and compared with the model's units; distinct = hash(stream, predicate/parser); " +
 			"non-trivial = the predicate skipped ≥1 and kept ≥1 packet, or the parser saw ≥2 groups",
@@ -28,6 +28,7 @@ func init() {
 			need(m, &out, "skipper_runs", 1500)
 			need(m, &out, "skipper_callbacks_observed", 20000)
 			need(m, &out, "packets_skipped", 3000)
+			need(m, &out, "adaptation_only_packets_in_streams", 500)
 			need(m, &out, "parser_groups_observed", 1000)
 			need(m, &out, "parser_replaced_units", 300)
 			need(m, &out, "parser_errors_surfaced", 20)
@@ -88,6 +89,7 @@ func runC19(c *mon.Ctx) {
 		m := gen.RandomModel(r, gen.ModelOpts{MaxPES: 3, MaxPMT: 2, MaxSI: 2, MaxUnits: 3, RichAF: true})
 		s := m.Build(r)
 		clean := true
+		var orig *gen.Stream
 		if i%3 == 2 {
 			// a damaged variant: drop a few packets (continuity gaps); skipper equivalence must still hold
 			var keep []*astits.Packet
@@ -102,6 +104,13 @@ func runC19(c *mon.Ctx) {
 				clean = false
 			}
 		}
+		if i%2 == 1 {
+			// adaptation-only packets (AFC 10: clock references and flags, no payload) between the others: they belong to the
+			// stream like any packet, so the predicate is consulted for them too and NextPacket returns them unless skipped
+			orig = s
+			s = withAFOnly(r, s)
+			c.Add("adaptation_only_packets_in_streams", int64(len(s.Packets)-len(orig.Packets)))
+		}
 		ref := make([]*astits.Packet, len(s.Packets))
 		for k := range s.Packets {
 			ref[k], _ = refts.DecodePacket(s.Bytes[k*188 : (k+1)*188])
@@ -112,6 +121,14 @@ func runC19(c *mon.Ctx) {
 			}
 		}
 		if clean {
+			if orig != nil {
+				// the parser never sees payload-less packets: same groups with and without them
+				afo := RunDemux(s.Bytes, baseCfg("data"))
+				if d := itemsEqual(afo.Items, RunDemux(orig.Bytes, baseCfg("data")).Items); d != "" {
+					c.Violate("C19/adaptation-only-packets-change-the-data", "streams", i, d, map[string]any{"stream": mon.Hex(s.Bytes, 1500)})
+				}
+				s = orig
+			}
 			parserCases(c, i, r, s, m)
 		}
 		if i < 2 {
@@ -221,6 +238,41 @@ func skipperCase(c *mon.Ctx, idx int64, s *gen.Stream, ref []*astits.Packet, pr 
 	if d := itemsEqual(got, base.Items); d != "" {
 		c.Violate("C19/skipper/differs-from-filtered-stream-after-rewind:"+pr.name+":"+api, "streams", idx, d, data)
 	}
+}
+
+// withAFOnly returns a copy of the stream with payload-less packets inserted; the continuity counter of such a packet is the
+// one of the previous packet of its PID (it does not advance), so reassembly of the other packets is unaffected.
+func withAFOnly(r *rand.Rand, s *gen.Stream) *gen.Stream {
+	last := map[uint16]uint8{}
+	var pids []uint16
+	var out []*astits.Packet
+	ins := func() {
+		pid := uint16(0x1ff0 + r.IntN(8))
+		cc := uint8(r.UintN(16))
+		if len(pids) > 0 && r.IntN(4) > 0 {
+			pid = pids[r.IntN(len(pids))]
+			cc = last[pid]
+		}
+		a := gen.RandomAF(r, 183, -1, -1)
+		a.DiscontinuityIndicator = false
+		a.StuffingLength = 183 - gen.AFBodySize(a) + a.StuffingLength
+		out = append(out, &astits.Packet{Header: astits.PacketHeader{PID: pid, ContinuityCounter: cc, HasAdaptationField: true,
+			TransportPriority: r.IntN(2) == 0}, AdaptationField: a})
+	}
+	for _, p := range s.Packets {
+		for r.IntN(4) == 0 {
+			ins()
+		}
+		out = append(out, p)
+		if _, ok := last[p.Header.PID]; !ok {
+			pids = append(pids, p.Header.PID)
+		}
+		last[p.Header.PID] = p.Header.ContinuityCounter
+	}
+	ins()
+	ns := &gen.Stream{Packets: out}
+	ns.Encode()
+	return ns
 }
 
 func itemsEqualNoPos(a, b []Item) string { return itemsEqual(a, b) }
